@@ -16,8 +16,9 @@ LEVEL = "exploration"
 TECHNIQUE = "property-based testing (Hypothesis): UnaryOperation.commute reports decoded and re-evaluated by an independent evaluator on generated targets; 7x7 operation-type matrix"
 LEVEL_TEXT = (
     "Bounded exploration: ordered pairs (existing, new) over Calculation, Deduplication, Projection, Selection, Slice, "
-    "Sort and resolved PartialJoin with generated parameters over a 4-7 tag universe, on target leaves of <= 5 rows "
-    "(duplicates included).  Every reported commutation is decoded and evaluated: first then second (then the original "
+    "Sort and resolved PartialJoin (fixed operand a data leaf or a join identity) with generated parameters over a 4-7 tag "
+    "universe, on target leaves of <= 5 rows (duplicates included); the existing operation may also be a user-defined "
+    "Reordering / RowFilter subclass (the two documented extension points), which commute() only knows by its flags.  Every reported commutation is decoded and evaluated: first then second (then the original "
     "again if partial) must give the rows of existing-then-new in the same order, and both reported operations must be "
     "well-formed where they would be applied; a refusal must hand back the existing operation."
 )
@@ -39,11 +40,88 @@ def budget(tier):
     return 8000 if tier == "quick" else 200000
 
 
+_CUSTOM = None
+
+
+def custom_classes():
+    """User-defined operations through the two documented extension points (Reordering, RowFilter), used as *existing*
+    operations: built-in commute() implementations only know their flags and required columns.
+
+    tsort t   Reordering: stable sort by descending value of column t (a user-defined sort)
+    cfilt t   RowFilter: keeps rows whose value in column t is even (reads t; order independent)
+    alt       RowFilter: keeps rows at even positions (order and count dependent, declared like Slice)"""
+    global _CUSTOM
+    if _CUSTOM is None:
+        import dataclasses
+
+        from lsst.daf.relation import ColumnTag, Reordering, RowFilter
+
+        @dataclasses.dataclass(frozen=True)
+        class TotalSort(Reordering):
+            tag: ColumnTag
+
+            def __str__(self):
+                return f"tsort[{self.tag}]"
+
+            @property
+            def columns_required(self):
+                return frozenset({self.tag})
+
+        @dataclasses.dataclass(frozen=True)
+        class EvenFilter(RowFilter):
+            tag: ColumnTag
+
+            def __str__(self):
+                return f"even[{self.tag}]"
+
+            @property
+            def columns_required(self):
+                return frozenset({self.tag})
+
+            @property
+            def is_order_dependent(self):
+                return False
+
+            @property
+            def is_empty_invariant(self):
+                return False
+
+            def applied_max_rows(self, target):
+                return target.max_rows
+
+        @dataclasses.dataclass(frozen=True)
+        class Alternate(RowFilter):
+            def __str__(self):
+                return "alternate"
+
+            @property
+            def is_order_dependent(self):
+                return True
+
+            @property
+            def is_count_dependent(self):
+                # like Slice: which rows survive depends on how many rows precede them
+                return True
+
+            @property
+            def is_empty_invariant(self):
+                return True
+
+            def applied_max_rows(self, target):
+                return target.max_rows
+
+        _CUSTOM = (TotalSort, EvenFilter, Alternate)
+    return _CUSTOM
+
+
 @st.composite
-def st_op(draw, cols, universe, fixed_cols, kind=None):
+def st_op(draw, cols, universe, fixed_cols, kind=None, custom=False):
     cols = sorted_tags(cols)
     free = [t for t in universe if t not in cols]
     ks = ["sel", "slice", "dedup", "pjoin"]
+    if custom and draw(st.integers(0, 5)) == 0:
+        k = draw(st.sampled_from(["alt"] + (["cfilt", "tsort"] if cols else [])))
+        return (k, draw(st.sampled_from(cols))) if k != "alt" else (k,)
     if cols:
         ks += ["sort", "proj", "proj"]
         if free:
@@ -73,7 +151,10 @@ def st_case(draw):
     leaf = draw(st_leaf(CFG, universe, 0))
     fixed = draw(st_leaf(CFG, universe, 1))
     cols0 = frozenset(leaf[1])
-    existing = draw(st_op(cols0, universe, fixed[1]))
+    if draw(st.integers(0, 7)) == 0:
+        # the fixed join operand is a join identity (no columns, exactly one row): joining to it with a predicate filters
+        fixed = (fixed[0], (), ((),), fixed[3], "data", (1, 1), "plain")
+    existing = draw(st_op(cols0, universe, fixed[1], custom=True))
     cols1 = cols_after(existing, cols0, frozenset(fixed[1]))
     # the new operation is drawn for the columns it will see, but may also name a tag the existing operation hid
     new = draw(st_op(cols1, universe, fixed[1]))
@@ -106,6 +187,8 @@ def well_formed(spec, cols, fixed_cols):
     if k == "sort":
         need = frozenset().union(*[cols_e(e) for e, _ in spec[1]]) if spec[1] else frozenset()
         return None if need <= cols else f"sort needs {set(need - cols)}"
+    if k in ("cfilt", "tsort"):
+        return None if spec[1] in cols else f"custom operation needs {spec[1]}"
     if k == "pjoin":
         need = (cols_p(spec[2]) if spec[2] is not None else frozenset()) - fixed_cols
         common = frozenset(spec[3]) if len(spec) > 3 else frozenset()
@@ -124,8 +207,10 @@ def well_formed_columns(spec, fixed_cols):
         return set(cols_p(spec[1]))
     if k == "sort":
         return set().union(*[cols_e(e) for e, _ in spec[1]]) if spec[1] else set()
-    if k in ("dedup", "slice"):
+    if k in ("dedup", "slice", "alt"):
         return set()
+    if k in ("cfilt", "tsort"):
+        return {spec[1]}
     return None
 
 
@@ -145,6 +230,12 @@ def apply_spec(spec, rows, cols, fixed_rows, fixed_cols):
         return sort_rows(rows, spec[1])
     if k == "slice":
         return rows[spec[1] : spec[2]]
+    if k == "tsort":
+        return sorted(rows, key=lambda r: -r[spec[1]])
+    if k == "cfilt":
+        return [r for r in rows if r[spec[1]] % 2 == 0]
+    if k == "alt":
+        return rows[::2]
     if k == "pjoin":
         common = spec[3] if len(spec) > 3 else [t for t in sorted_tags(cols & fixed_cols) if t.is_key]
         if spec[1]:
@@ -169,6 +260,9 @@ def to_lib(spec, fixed_rel):
         return Sort(tuple(SortTerm(lib_e(e), asc) for e, asc in spec[1]))
     if k == "slice":
         return Slice(spec[1], spec[2])
+    if k in ("tsort", "cfilt", "alt"):
+        TotalSort, EvenFilter, Alternate = custom_classes()
+        return TotalSort(spec[1]) if k == "tsort" else Alternate() if k == "alt" else EvenFilter(spec[1])
     if k == "pjoin":
         pred = lib_p(spec[2]) if spec[2] is not None else Predicate.literal(True)
         return Join(pred).partial(fixed_rel, is_lhs=spec[1])
@@ -180,6 +274,13 @@ def from_lib(op, fixed_rel):
 
     if isinstance(op, Identity):
         return ("ident",)
+    TotalSort, EvenFilter, Alternate = custom_classes()
+    if isinstance(op, TotalSort):
+        return ("tsort", op.tag)
+    if isinstance(op, Alternate):
+        return ("alt",)
+    if isinstance(op, EvenFilter):
+        return ("cfilt", op.tag)
     if isinstance(op, PartialJoin):
         if op.fixed is not fixed_rel:
             raise Undecodable(f"partial join to an unknown relation {op.fixed}")
@@ -202,6 +303,12 @@ def fmt_spec(s):
         return "sort(" + ",".join(("" if a else "-") + fmt_e(e) for e, a in s[1]) + ")"
     if k == "slice":
         return f"slice[{s[1]}:{s[2]}]"
+    if k == "cfilt":
+        return f"custom-filter(even {s[1]})"
+    if k == "tsort":
+        return f"custom-reordering(stable sort by -{s[1]})"
+    if k == "alt":
+        return "custom-filter(rows at even positions)"
     if k == "pjoin":
         return f"join[fixed {'lhs' if s[1] else 'rhs'}{'' if s[2] is None else ', on=' + fmt_p(s[2])}{'' if len(s) < 4 else ', common=' + str(list(s[3]))}]"
     return k
@@ -318,7 +425,7 @@ def run_case(case, stats):
         env.close()
 
 
-EXHAUSTIVE_NOTE = "all ordered pairs over a grid of 24 parameterised operations (vf/checks/c04.py:GRID) on 3 fixed targets"
+EXHAUSTIVE_NOTE = "all ordered pairs over a grid of 24 parameterised operations (vf/checks/c04.py:grid), plus 5 user-defined existing operations (Reordering / RowFilter subclasses) and predicate joins to a join identity, on 3 fixed targets"
 
 
 def grid():
@@ -362,21 +469,25 @@ def exhaustive(tier, stats, shard, nshards, run):
     ]
     fixed = ("L1", (A, D), ((0, 7), (1, 8), (2, 9), (2, 6)), 1, "data", (4, 4), "plain")
     g = grid()
+    customs = [("tsort", A), ("tsort", C), ("alt",), ("cfilt", A), ("cfilt", C)]
+    identity = ("L1", (), ((),), 1, "data", (1, 1), "plain")
+    idjoins = [("pjoin", False, ("ge", ("ref", A), ("lit", 1))), ("pjoin", True, ("eq", ("ref", B), ("ref", C))), ("pjoin", False, None)]
     idx = 0
     for rows in targets:
         leaf = ("L0", (A, B, C), rows, 1, "data", (len(rows), len(rows)), "plain")
-        for existing in g:
-            for new in g:
-                idx += 1
-                if idx % nshards != shard:
-                    continue
-                case = (UNIVERSE, (leaf, fixed), existing, new)
-                try:
-                    run(case)
-                except Violation as v:
-                    v.case = case
-                    raise
-                stats.c["grid_pairs"] += 1
+        pairs = [(fixed, existing, new) for existing in g + customs for new in g]
+        pairs += [(identity, existing, new) for existing in g + customs for new in idjoins]
+        for fx, existing, new in pairs:
+            idx += 1
+            if idx % nshards != shard:
+                continue
+            case = (UNIVERSE, (leaf, fx), existing, new)
+            try:
+                run(case)
+            except Violation as v:
+                v.case = case
+                raise
+            stats.c["grid_pairs"] += 1
 
 
 def describe(case):
